@@ -130,7 +130,8 @@ fn check(id: &str, tier: Tier) -> i32 {
 
     let mut jobs: Vec<(&Box<dyn Scenario>, u64, u64, &'static str)> = Vec::new();
     for scn in scns {
-        let n = std::env::var("VERIF_RUNS").ok().and_then(|s| s.parse::<u64>().ok()).unwrap_or_else(|| scn.runs(tier));
+        let div = std::env::var("VERIF_RUNS_DIV").ok().and_then(|s| s.parse::<u64>().ok()).unwrap_or(1).max(1);
+        let n = std::env::var("VERIF_RUNS").ok().and_then(|s| s.parse::<u64>().ok()).unwrap_or_else(|| (scn.runs(tier) / div).max(scn.runs(tier).min(8)));
         jobs.push((scn, 0, n, ""));
         // the same scenario again with a Trace-level logger installed (a quarter as many runs)
         jobs.push((scn, crate::core::LOG_BIT, (n / 4).max(n.min(4)), " [logging on]"));
@@ -291,6 +292,7 @@ fn check(id: &str, tier: Tier) -> i32 {
         .with("runs_without_verdict", J::u(total_discarded))
         .with("truncated_by_wall_clock_guard", J::Bool(truncated))
         .with("workers", J::u(nworkers as u64))
+        .with("build_profile", J::s(if cfg!(debug_assertions) { "checked: opt-level 2 with overflow checks and debug assertions on (what the repository's own tests run under)" } else { "plain: release without overflow checks and debug assertions" }))
         .with("distinct_counts_saturate_at", J::u(crate::core::DistinctSet::CAP as u64))
         .with("scenarios", J::Arr(per_scn))
         .with("real_components", J::Arr(prop.real.iter().map(|s| J::s(*s)).collect()))
